@@ -335,8 +335,27 @@ def mask2d_derive_indexes(mask):
     flattened pixel indices' -- Mask2D.derive_indexes.native_for_slim / unmasked_slim / masked_slim (and pixels_in_mask);
     bound: every mask of 13 (21) shapes <= 9 (12) cells + 1500 (20000) random masks <= 8x7."""
     import autoarray as aa
-    H, W = mask.shape
+    from bounded.c10_mask_sets import _edited_in_place
     mk = aa.Mask2D(mask=mask.copy(), pixel_scales=(1.0, 2.0), origin=(0.5, -1.0))
+
+    def body(mk_, mask_):
+        msg = _index_lists_of(mk_, mask_)
+        if msg:
+            return msg
+        # the table is what Array2D uses to scatter slim values
+        n = int((~mask_).sum())
+        vals = np.arange(1.0, n + 1.0)
+        want = np.zeros(mask_.shape)
+        want[~mask_] = vals
+        got = np.asarray(aa.Array2D(values=vals.copy(), mask=mk_).native.array)
+        if got.shape != want.shape or not np.array_equal(got, want):
+            return "Array2D(slim values, mask).native = %r, expected %r" % (got.tolist(), want.tolist())
+        return None
+    return _edited_in_place(body, mk, mask)
+
+
+def _index_lists_of(mk, mask):
+    H, W = mask.shape
     di = mk.derive_indexes
     nfs, un, ma = np.asarray(di.native_for_slim), np.asarray(di.unmasked_slim), np.asarray(di.masked_slim)
     # oracle straight from the statement: walk the pixels top row first, left to right
